@@ -3,6 +3,7 @@ import LenaModel.Model.C18
 import LenaModel.Model.C18Split
 import LenaModel.Model.C18Ctx
 import LenaModel.Model.C18Spec
+import LenaModel.Model.C18Exc
 /-! Model driver for C18.  One request per case (a history), one reply:
   {"nc":n, "hist":[op,…]}  ->  {"ops":[obs,…]}
   op  = {"op":"run","mode":"source"|"sequence"|"hoist"|"hoist_src"|"meta"|"bare_hoist"|"bare_meta",
@@ -14,8 +15,9 @@ import LenaModel.Model.C18Spec
                "ref":{"vals":[ints],"exc":name|null}}      (ref = `pipeFlow` on the file system before the run)
         drop: {"r":"ok"|name,"fs":…}     finalize: {"fs":…}
   op  = {"op":"splitrun","src":…,"outer":[el,…],"branch":[el,…],"bufsize":n|null,"take":k|null,"fin":…}
-        (Source(src, *outer, Split([Sequence(*branch)], bufsize))(); the case field "split_patched" says which
-        bufsize rule Split.__init__ of the tree has)  ->  like run, without "ref"
+        (Source(src, *outer, Split([Sequence(*branch)], bufsize))())  ->  like run, without "ref"
+  src and map elements may carry "rk": "exc"|"kbd"|"sysexit"|"base"|"genexit" (class of the exception they raise);
+  {"op":"plant","c":id,"what":"empty"|"tmp"}: a foreign empty cache file / a stale temporary file
 `take = null` becomes a demand that exceeds every flow the pipeline can produce. -/
 open Lean Lena.Drv Lena.C18
 
@@ -68,6 +70,32 @@ def endName : End → String
   | .exhausted => "exhausted"
   | .raised e => excName e
 
+def parseClass (j : Json) : ExcClass :=
+  match str? j with
+  | some "kbd" => .keyboardInterrupt
+  | some "sysexit" => .systemExit
+  | some "base" => .baseException
+  | some "genexit" => .generatorExit
+  | _ => .exception
+
+/-- the classes the source and the data elements (numbered as the map elements are) raise: field "rk" -/
+def parseClasses (src : Json) (els : List Json) : RaiseClasses :=
+  let data := els.filter (fun e => str? (getD e "k") != some "setctx")
+  ⟨parseClass (getD src "rk"), fun j => match data[j]? with | some e => parseClass (getD e "rk") | none => .exception⟩
+
+/-- the name of the end of a run, with the class of the exception that leaves it -/
+def endNameC (rc : RaiseClasses) (evs : List Ev) : End → String
+  | .stopped => "stopped"
+  | .exhausted => "exhausted"
+  | .raised e =>
+    match leavingClass rc evs e with
+    | .exception => (match raiserOf evs with | some none => "Other:SrcBoom" | _ => "Other:ElBoom")
+    | .keyboardInterrupt => "Other:KeyboardInterrupt"
+    | .systemExit => "Other:SystemExit"
+    | .baseException => "Other:BaseBoom"
+    | .generatorExit => "Other:GeneratorExit"
+    | .osError => "Other:FileNotFoundError"
+
 def evJson : Ev → Json
   | .srcYield i => Json.str s!"s{i}"
   | .srcRaise i => Json.str s!"s!{i}"
@@ -99,12 +127,13 @@ def parseRun (nb V nc : Nat) (fs : FS) (j : Json) : Option RunSpec := do
   let s : SrcSpec := ⟨vals, r⟩
   pure ⟨mode, s, els, take.getD (bigDemand nc fs s), fin == "leak"⟩
 
-def runObs (nc : Nat) (w : World) (r : RunSpec) : World × Json :=
-  let (w', d) := runOp w r
+def runObs (rcl : RaiseClasses) (nc : Nat) (w : World) (r : RunSpec) : World × Json :=
+  let d := (runOp w r).2
+  let w' := step w (.run r)               -- the world the theorems about `exec` speak of
   let ref := pipeFlow w.fs r.src r.els
   (w', Json.mkObj [
     ("out", ofIntList (d.outs.map (·.1))),
-    ("end", Json.str (endName d.end_)),
+    ("end", Json.str (endNameC rcl d.evs d.end_)),
     ("ev", ofList evJson d.evs),
     ("snaps", ofList (fun o => bitsJson nc o.2) d.outs),
     ("fs", fsJson nc w'.fs),
@@ -138,13 +167,13 @@ def parseSplitRun (nb V nc : Nat) (fs : FS) (j : Json) : Option SplitRunSpec := 
   let big := bigDemand nc fs s
   pure ⟨s, outer, branch, bufsize, take.getD (big * big + 1), fin == "leak"⟩
 
-def splitObs (patched bare : Bool) (nc : Nat) (w : World) (r : SplitRunSpec) : World × Json :=
+def splitObs (rcl : RaiseClasses) (patched bare : Bool) (nc : Nat) (w : World) (r : SplitRunSpec) : World × Json :=
   let (w', d) := match bare, r.branch with
     | true, .cache c rc :: _ => runSplitBareOp patched w r c rc      -- Split([Cache(..)])
     | _, _ => runSplitOp patched w r
   (w', Json.mkObj [
     ("out", ofIntList (d.outs.map (·.1))),
-    ("end", Json.str (endName d.end_)),
+    ("end", Json.str (endNameC rcl d.evs d.end_)),
     ("ev", ofList evJson d.evs),
     ("snaps", ofList (fun o => bitsJson nc o.2) d.outs),
     ("ids", ofList ofNat (cacheIds (r.outer ++ r.branch))),
@@ -170,15 +199,22 @@ def stepObs (patched : Bool) (nb V nc : Nat) (w : World) (j : Json) : Option (Wo
   match str? (getD j "op") with
   | some "splitrun" => do
     let r ← parseSplitRun nb V nc w.fs j
-    pure (splitObs patched ((bool? (getD j "bare")).getD false) nc w r)
+    let elsJ := ((arr? (getD j "outer")).getD #[]).toList ++ ((arr? (getD j "branch")).getD #[]).toList
+    pure (splitObs (parseClasses (getD j "src") elsJ) patched ((bool? (getD j "bare")).getD false) nc w r)
   | some "run" => do
     let r ← parseRun nb V nc w.fs j
-    pure (runObs nc w r)
+    pure (runObs (parseClasses (getD j "src") ((arr? (getD j "els")).getD #[]).toList) nc w r)
   | some "drop" => do
     let c ← nat? (getD j "c")
     let rc := (bool? (getD j "rc")).getD false
-    let (w', e) := dropOp w c rc
+    let e := (dropOp w c rc).2
+    let w' := step w (.drop c rc)
     pure (w', Json.mkObj [("r", Json.str (match e with | none => "ok" | some e => excName e)), ("fs", fsJson nc w'.fs)])
+  | some "plant" => do
+    -- a file no run of the history made (Model/C18Exc.lean)
+    let c ← nat? (getD j "c")
+    let fs' := if str? (getD j "what") == some "empty" then w.fs.plantEmpty c else w.fs.plantTmp c
+    pure (⟨fs', w.leaked⟩, Json.mkObj [("fs", fsJson nc fs')])
   | some "bufrule" => do
     -- `Split(members, bufsize)._bufsize is None` (`Split.__init__`, `_contains_cache`)
     let members ← (arr? (getD j "members")).bind (fun a => a.toList.mapM parseTree)
@@ -209,7 +245,9 @@ def runHist (patched : Bool) (nb V nc : Nat) : World → List Json → Option (L
 def handle (j : Json) : Json :=
   match nat? (getD j "nc"), arr? (getD j "hist") with
   | some nc, some h =>
-    match runHist ((bool? (getD j "split_patched")).getD false) ((nat? (getD j "nb")).getD nc) ((nat? (getD j "V")).getD 0)
+    -- the buffer-size rule of `Split.__init__` is the one of /repo (7235571): `effBufsize true`; the pinned rule
+    -- (`effBufsize false`) is kept in the model only for the counterexample `split_pinned_truncates`
+    match runHist true ((nat? (getD j "nb")).getD nc) ((nat? (getD j "V")).getD 0)
         nc World.init h.toList with
     | some obs => Json.mkObj [("ops", Json.arr obs.toArray)]
     | none => err "bad op"
